@@ -373,5 +373,6 @@ def to_uri(file_path):
     else:
         # Replace backslashes with slashes.
         posix_path = pure_path.as_posix()
-        # %-encode special characters.
-        return urlparse.quote(posix_path)
+        # %-encode special characters (bytes of a name that is not valid
+        # UTF-8 arrive as surrogate escapes: encode them back)
+        return urlparse.quote(posix_path, errors="surrogateescape")
